@@ -27,6 +27,9 @@ def _worker(pid, inst, tier, conn):
         sys.setrecursionlimit(20000)
         import warnings
         warnings.simplefilter("ignore")
+        import logging
+        logging.getLogger("hvsrpy").addHandler(logging.NullHandler())
+        logging.getLogger("hvsrpy").propagate = False
         from symx.report import InstanceReport
         mod = importlib.import_module("harness." + pid)
         rep = InstanceReport(inst["name"])
